@@ -312,11 +312,26 @@ func (p *pcWorld) elem(t *abi.Type) any {
 	return randABIValue(*t, rng)
 }
 
-// features: what the Lean model of `Validate` may look at, keyed by ABI input name
-func (p *pcWorld) features(v *pcVec) string {
+// fieldOfInput: the struct field go-ethereum's `Arguments.Copy` stores ABI input i in (a single input goes to the first
+// field whatever its tag; otherwise the field tagged `abi:"<input name>"`, else the capitalised input name)
+func fieldOfInput(target any, m abi.Method, i int) string {
+	t := reflect.TypeOf(target).Elem()
+	if len(m.Inputs) == 1 && t.NumField() > 0 {
+		return t.Field(0).Name
+	}
+	for k := 0; k < t.NumField(); k++ {
+		if t.Field(k).Tag.Get("abi") == m.Inputs[i].Name {
+			return t.Field(k).Name
+		}
+	}
+	return abi.ToCamelCase(m.Inputs[i].Name)
+}
+
+// features: what the Lean model of `Validate` may look at, keyed by the Go field name of the args struct
+func (p *pcWorld) features(v *pcVec, target any) string {
 	var fs []string
-	for i, in := range v.m.Inputs {
-		n := in.Name
+	for i := range v.m.Inputs {
+		n := fieldOfInput(target, v.m, i)
 		switch a := v.args[i].(type) {
 		case string:
 			fs = append(fs, fmt.Sprintf("empty:%s=%d", n, b2i(a == "")))
@@ -326,7 +341,7 @@ func (p *pcWorld) features(v *pcVec) string {
 		case common.Address:
 			fs = append(fs, fmt.Sprintf("zaddr:%s=%d", n, b2i(a == common.Address{})))
 		case *big.Int:
-			fs = append(fs, fmt.Sprintf("nil:%s=0", n), fmt.Sprintf("sign:%s=%d", n, a.Sign()))
+			fs = append(fs, fmt.Sprintf("big:%s=%s", n, a.String()))
 		case [32]byte:
 			fs = append(fs, fmt.Sprintf("zarr:%s=%d", n, b2i(a == [32]byte{})))
 		case uint8:
@@ -548,7 +563,7 @@ func (e *env) precompileRunSweep(t *testing.T) {
 		case dres != "ok":
 			dobs = "err"
 		}
-		e.out.Emit(fmt.Sprintf("pcv %s %s %s", key, reflect.TypeOf(target).Elem().Name(), p.features(v)), dobs)
+		e.out.Emit(fmt.Sprintf("pcv %s %s %s", key, reflect.TypeOf(target).Elem().Name(), p.features(v, target)), dobs)
 		// (b) the real Run through a signed MsgEthereumTx
 		replayLine := fmt.Sprintf("pcall from=u%d to=%s value=%s data=%s", v.from, j.p.addr.Hex(), v.value, hex.EncodeToString(data))
 		res := p.send(v, j.p.addr, data)
